@@ -52,7 +52,7 @@ def run_demo(prop, n, wt, meta):
     elif os.path.exists(drs):
         name = '%s_m%d_demo' % (prop.lower(), n)
         shutil.copy(drs, os.path.join(wt, 'tests', name + '.rs'))
-        rc, out = sh('timeout 900 cargo test --offline --test %s 2>&1 | tail -25' % name, cwd=wt, timeout=1200)
+        rc, out = sh('timeout 900 cargo test --offline %s --test %s 2>&1 | tail -25' % ('--release' if '--release' in cmd else '', name), cwd=wt, timeout=1200)
         ok = re.search(r'test result: ok', out) is not None
         os.remove(os.path.join(wt, 'tests', name + '.rs'))
         return (0 if ok else 1), out[-800:]
@@ -82,6 +82,7 @@ def recheck(name):
     finally:
         sh('git -C /repo checkout -- .')
         restore_evidence(saved)
+        sh('cargo build --release --offline', cwd=os.path.join(V, 'harness'))      # the shared runner must not stay built from the seeded change
     res['checks'] = caught
     res['caught_by'] = [c for c in caught if caught[c]['exit'] == 1]
     res['ran'].append('recheck: git -C /repo apply; ' + '; '.join('./check %s --tier quick' % c for c in checks) + '; git -C /repo checkout -- .')
@@ -132,6 +133,7 @@ def main():
     finally:
         sh('git -C /repo checkout -- .')
         restore_evidence(saved)
+        sh('cargo build --release --offline', cwd=os.path.join(V, 'harness'))      # the shared runner must not stay built from the seeded change
     res['checks'] = caught
     res['caught_by'] = [c for c in caught if caught[c]['exit'] == 1]
     res['ran'].append('git -C /repo apply; ' + '; '.join('./check %s --tier quick' % c for c in checks) + '; git -C /repo checkout -- .')
